@@ -4,11 +4,31 @@ import SST.Drv.Proto
 namespace SST.Drv
 open SST
 
-/-- `skip.run ins=k:v:h,... probes=size,all,get:k,has:k,from:k,between:lo:hi,ins:k:v:h` (keys hex / `.`; values plain tokens) -/
+/-- `skip.run [cmp=<name>] ins=k:v:h,... probes=size,all,get:k,has:k,from:k,between:lo:hi,ins:k:v:h` (keys hex / `.`; values plain tokens) -/
 def kvList (l : List (Bytes × String)) : String :=
   if l.isEmpty then "[]" else String.intercalate ";" (l.map fun p => goBytesToStr (some p.1) ++ "=" ++ p.2)
 
 def keyOf (s : String) : Option Bytes := (goBytesOfStr s).map (·.getD [])
+
+/-- ASCII lower-casing of one byte (`A`..`Z` → `a`..`z`) -/
+def lowerByte (b : UInt8) : UInt8 := if 0x41 ≤ b ∧ b ≤ 0x5a then b + 0x20 else b
+
+/-- then-by combination of two orderings -/
+def thenCmp (o : Ordering) (p : Ordering) : Ordering := match o with | .eq => p | _ => o
+
+/-- the comparators of the `cmp=<name>` option of `skip.run` / `pq.run` (the models take the comparator as a
+parameter); without the option: `bytes` = `bytes.Compare`.  All are total and consistent; `fold` has a coarser
+equality than byte equality. -/
+def cmpByName : String → Option (Bytes → Bytes → Ordering)
+  | "bytes" => some bytesCmp
+  | "rev" => some fun a b => bytesCmp b a                                   -- descending
+  | "shortlex" => some fun a b => thenCmp (compare a.length b.length) (bytesCmp a b)
+  | "revshortlex" => some fun a b => thenCmp (compare b.length a.length) (bytesCmp a b)  -- longer first
+  | "last" => some fun a b => bytesCmp a.reverse b.reverse                  -- last byte first
+  | "signed" => some fun a b => bytesCmp (a.map (· ^^^ 0x80)) (b.map (· ^^^ 0x80))  -- bytes as int8
+  | "foldtie" => some fun a b => thenCmp (bytesCmp (a.map lowerByte) (b.map lowerByte)) (bytesCmp a b)
+  | "fold" => some fun a b => bytesCmp (a.map lowerByte) (b.map lowerByte)  -- case-insensitive
+  | _ => none
 
 def skipRun (a : Args) : String :=
   let insStr := splitList (a.getD "ins" "")
@@ -16,16 +36,17 @@ def skipRun (a : Args) : String :=
     match t.splitOn ":" with
     | [k, v, h] => do let kb ← keyOf k; let hn ← h.toNat?; pure (kb, v, hn)
     | _ => none
-  match ins? with
-  | none => "bad-op"
-  | some ins =>
+  match ins?, cmpByName (a.getD "cmp" "bytes") with
+  | none, _ => "bad-op"
+  | _, none => "bad-op"
+  | some ins, some cmp =>
     -- duplicates make the Go code panic at that insert; everything before it stays
     let rec build (s : SkipList Bytes String) (l : List (Bytes × String × Nat)) (acc : List String) :
         SkipList Bytes String × List String :=
       match l with
       | [] => (s, acc.reverse)
       | (k, v, h) :: rest =>
-        match SkipList.insert bytesCmp s k v h with
+        match SkipList.insert cmp s k v h with
         | some s' => build s' rest ("ok" :: acc)
         | none => build s rest ("panic" :: acc)
     let (s, insOut) := build SkipList.empty ins []
@@ -35,21 +56,21 @@ def skipRun (a : Args) : String :=
       | ["size"] => toString s.size
       | ["all"] => kvList s.iterAll
       | ["get", k] => match keyOf k with
-        | some kb => (match SkipList.get bytesCmp s kb with | some v => "ok:" ++ v | none => "notfound")
+        | some kb => (match SkipList.get cmp s kb with | some v => "ok:" ++ v | none => "notfound")
         | none => "bad-op"
       | ["has", k] => match keyOf k with
-        | some kb => toString (SkipList.contains bytesCmp s kb)
+        | some kb => toString (SkipList.contains cmp s kb)
         | none => "bad-op"
       | ["from", k] => match keyOf k with
-        | some kb => kvList (SkipList.iterFrom bytesCmp s kb)
+        | some kb => kvList (SkipList.iterFrom cmp s kb)
         | none => "bad-op"
       | ["between", lo, hi] => match keyOf lo, keyOf hi with
-        | some l, some h => (match SkipList.iterBetween bytesCmp s l h with | some r => kvList r | none => "rejected")
+        | some l, some h => (match SkipList.iterBetween cmp s l h with | some r => kvList r | none => "rejected")
         | _, _ => "bad-op"
       | _ => "bad-op"
     "ins=" ++ String.intercalate "," insOut ++ " " ++ String.intercalate " " outs
 
-/-- `pq.run inputs=k:v;k:v|k:v|...` → `k:v:ctx;...` -/
+/-- `pq.run [cmp=<name>] inputs=k:v;k:v|k:v|...` → `k:v:ctx;...` -/
 def pqRun (a : Args) : String :=
   let inputs? : Option (List (List (Bytes × String))) :=
     ((a.getD "inputs" "").splitOn "|").mapM fun inp =>
@@ -57,11 +78,12 @@ def pqRun (a : Args) : String :=
         match it.splitOn ":" with
         | [k, v] => (keyOf k).map fun kb => (kb, v)
         | _ => none
-  match inputs? with
-  | none => "bad-op"
-  | some inputs =>
+  match inputs?, cmpByName (a.getD "cmp" "bytes") with
+  | none, _ => "bad-op"
+  | _, none => "bad-op"
+  | some inputs, some cmp =>
     let inputs := if a.getD "inputs" "" == "" && a.getD "k" "" == "0" then [] else inputs
-    let out := PQ.drain bytesCmp inputs
+    let out := PQ.drain cmp inputs
     if out.isEmpty then "[]" else
     String.intercalate ";" (out.map fun (k, v, c) => goBytesToStr (some k) ++ ":" ++ v ++ ":" ++ toString c)
 
